@@ -14,7 +14,9 @@ ALSO = {"C01-reply-flags-echo": ["C04"], "C01-vring-addr-layout": ["C02"], "C20-
         "R4-C12-set-features-stale-legacy-check": ["C11"], "R4-C12-evt-idx-first-queue-offset": ["C17"],
         "R4-C04-header-size-bound": ["C20", "C05"], "R4-C02-rwlock-adapter-try-write": ["C14"],
         # round 5
-        "R5-C05-recv-data-iov-len": ["C08"], "R5-C11-sparse-thread-mask": ["C17"]}
+        "R5-C05-recv-data-iov-len": ["C08"], "R5-C11-sparse-thread-mask": ["C17"],
+        # round 6
+        "R6-C12-evt-idx-block-offset": ["C17"]}
 claimed = {c["property_id"] if "property_id" in c else c.get("id") for c in json.load(open(os.path.join(V, "MANIFEST.json"))).get("checks", [])}
 want = sys.argv[1:]
 res = json.load(open(RES)) if os.path.exists(RES) else {}
